@@ -118,3 +118,28 @@ Proof.
 Qed.
 
 End WithZlib.
+
+(* ---- the select loop with the retransmit guard (ClientLoop.v) -------------------------------------- *)
+From Iodine Require Import ClientLoop.
+
+Section Loop.
+Variable zc : list N -> list N.
+Variable unz : list N -> option (list N).
+
+(* an overdue wake-up of the loop (timeout, tun packet, or tun packet plus datagram) while a packet is in
+   flight counts one retransmission, or gives the packet up after the third *)
+Theorem overdue_wakeup_progress L e :
+  let s1 := watchdog (l_c L) (lnow e) in
+  c_running s1 = true -> is_sending s1 = true -> (l_lastchunk L + 1 < lnow e) ->
+  match e with LDns _ _ => False | _ => True end ->
+  match e with LBoth _ _ _ => reads_tun s1 = true | _ => True end ->
+  let s' := l_c (fst (lstep zc unz L e)) in
+  (c_resent s1 < 3 -> is_sending s' = true /\ c_resent s' = c_resent s1 + 1) /\
+  (3 <= c_resent s1 -> is_sending s' = false /\ c_resent s' = 0).
+Proof.
+  intros s1 Hrun Hs Hov Hk Hb.
+  rewrite (busy_tun_cannot_starve_retransmit zc unz L e Hrun Hs Hov Hk Hb).
+  unfold lwrap. cbn [fst l_c]. exact (timeout_step s1 Hs).
+Qed.
+
+End Loop.
